@@ -105,7 +105,7 @@ type vPeer struct {
 	applied  bool
 	shut     bool
 	seq      int
-	stall    int32 // 1: the message callback blocks (a client that stops reading)
+	stall    int32        // 1: the message callback blocks (a client that stops reading)
 	sink     atomic.Value // func([]byte): receives every message instead of the inbox
 }
 
@@ -460,6 +460,25 @@ func (r *vRelay) serve(w http.ResponseWriter, req *http.Request) {
 		}
 		if mode == "sink" {
 			continue
+		}
+		if mode == "pstream" {
+			// after the client's first message ("start:<tag in hex>"): a never-ending
+			// download whose every byte is determined by its offset (vlib.KeyByte)
+			var tag uint64
+			fmt.Sscanf(strings.TrimPrefix(string(data), "start:"), "%x", &tag)
+			chunk := make([]byte, 1200)
+			var off uint64
+			for {
+				vlib.FillKey(tag, 1, off, chunk)
+				c.wmu.Lock()
+				err = ws.WriteMessage(websocket.BinaryMessage, chunk)
+				c.wmu.Unlock()
+				if err != nil {
+					return
+				}
+				off += uint64(len(chunk))
+				atomic.AddInt64(&c.sent, int64(len(chunk)))
+			}
 		}
 		if mode == "stream" {
 			// after the client's first message: a never-ending download
